@@ -408,4 +408,74 @@ def enhancedDecide {T N : Nat} (iPu : ρ) (Hk : Mat α N T) (Msk : Mat α T N) (
   else .error .ValueError
 
 end matrix
+/-! ## `EnhancedBD.set_ext_int_handling_metric`: the configuration state of a long-lived object -/
+section metric
+
+/-- `metric_name` -/
+inductive MetricName | none | capacity | naive | fixed | effectiveThroughput
+  deriving DecidableEq, Repr, Inhabited
+
+/-- `_metric_func` -/
+inductive MetricFunc | noFunc | shannonSumCapacity | effectiveThroughput
+  deriving DecidableEq, Repr, Inhabited
+
+/-- `_metric_func_extra_args` (also: the dictionary a caller hands in); the modulator is an
+    opaque object, represented by a tag -/
+structure ExtraArgs where
+  numStreams : Option Nat := .none
+  modulator : Option Nat := .none
+  packetLength : Option Nat := .none
+  deriving DecidableEq, Repr, Inhabited
+
+structure MetricState where
+  name : MetricName := .none
+  func : MetricFunc := .noFunc
+  args : ExtraArgs := {}
+  deriving DecidableEq, Repr, Inhabited
+
+/-- the `metric` argument: `None` / `'None'`, one of the four names, or any other string -/
+inductive MetricReq | none | capacity | naive | fixed | effectiveThroughput | unknown
+  deriving DecidableEq, Repr, Inhabited
+
+/-- `set_ext_int_handling_metric(metric, metric_func_extra_args_dict)`: new state and the
+    exception raised (if any).  The arguments are checked before anything is assigned; only
+    the keys the metric needs are copied out of the caller's dictionary. -/
+def setMetric (s : MetricState) (req : MetricReq) (given : ExtraArgs) : MetricState × Option PyErr :=
+  match req with
+  | .none => ({ name := .none, func := .noFunc, args := {} }, .none)
+  | .capacity => ({ name := .capacity, func := .shannonSumCapacity, args := {} }, .none)
+  | .naive =>
+    match given.numStreams with
+    | .none => (s, some .AttributeError)
+    | some n => ({ name := .naive, func := .noFunc, args := { numStreams := some n } }, .none)
+  | .fixed =>
+    match given.numStreams with
+    | .none => (s, some .AttributeError)
+    | some n => ({ name := .fixed, func := .noFunc, args := { numStreams := some n } }, .none)
+  | .effectiveThroughput =>
+    match given.modulator, given.packetLength with
+    | some m, some l =>
+      ({ name := .effectiveThroughput, func := .effectiveThroughput,
+         args := { modulator := some m, packetLength := some l } }, .none)
+    | _, _ => (s, some .AttributeError)
+  | .unknown => (s, some .AttributeError)
+
+/-- a history of setter calls on one object -/
+def runMetricHistory (s : MetricState) : List (MetricReq × ExtraArgs) → MetricState
+  | [] => s
+  | (r, a) :: rest => runMetricHistory (setMetric s r a).1 rest
+
+/-- which of the three `_perform_BD_no_waterfilling_*` paths `block_diagonalize_no_waterfilling`
+    takes: decided by the CURRENT metric name only -/
+inductive BDPath | noReduction | fixedOrNaive | decide
+  deriving DecidableEq, Repr
+
+def bdPath (s : MetricState) : BDPath :=
+  match s.name with
+  | .none => .noReduction
+  | .naive | .fixed => .fixedOrNaive
+  | .capacity | .effectiveThroughput => .decide
+
+end metric
+
 end PyPhysim.BD
